@@ -1680,6 +1680,8 @@ impl LineBuf {
 				None
 			}
 			Direction::Backward => {
+				// The closing delimiter under the cursor is already open
+				depth = 1;
 				let mut bkwd_indices = (0..idx).rev();
 				while let Some(idx) = bkwd_indices.next() {
 					let gr = self.read_grapheme_at(idx)?;
